@@ -3,6 +3,7 @@ import ESRVerif.Props.C10
 import ESRVerif.Props.C07
 import ESRVerif.Props.C05
 import ESRVerif.Model.Stages
+import ESRVerif.Proofs.C04b
 /-!
 C04 (second half) — every row of the final table is reproducible.
 
@@ -237,22 +238,6 @@ end stage2
 
 section stage3
 open ESR.Match
-
-private theorem zeroWhere_all_true (m : List Bool) (xs : List XR) (hl : m.length = xs.length)
-    (hall : ∀ b ∈ m, b = true) : zeroWhere m xs = List.replicate xs.length (Num.zero : XR) := by
-  induction m generalizing xs with
-  | nil => cases xs <;> simp_all [zeroWhere]
-  | cons b m ih =>
-    cases xs with
-    | nil => simp at hl
-    | cons x xs =>
-      have hb : b = true := hall b (by simp)
-      have := ih xs (by simpa using hl) (fun b' hb' => hall b' (by simp [hb']))
-      simp only [zeroWhere] at this ⊢
-      simp only [hb, List.zipWith_cons_cons, if_true, List.length_cons, List.replicate_succ, this]
-
-private theorem take_pad_match (mp : Nat) (xs : List XR) : (pad mp xs).take xs.length = xs := by
-  simp [pad]
 
 /-- **Stage 3.**  `LikV` is the variant's likelihood closure, `LikU` the unique function's.  Hypotheses beyond C05's
 `Recoverable`: `hU` — the unique function's row `(r.nllU; paramsU)` is reproducible (what stage 2 yields);
@@ -543,11 +528,6 @@ noncomputable def rEx : ESR.Match.RowIn ESR.Match.XR Unit :=
     conv := .ok [.fin (-100), .fin 10] [.fin 12, .fin 12], symOk := true, reval := fun _ => .fin 0 }
 noncomputable def vEx : ESR.Rank.Row (ESR.Rank.XR ℝ) :=
   ⟨.fin (-100), .fin 0, .fin 0, 0, "f", [.fin (-100), .fin 10, .fin 0, .fin 0]⟩
-
-private theorem snapR_big (x : ℝ) (hx : 1 ≤ |x|) : ESR.Match.snapR x 12 = false := by
-  rw [Bool.eq_false_iff, Ne, ESR.Match.snapR_iff]
-  have : Real.sqrt (12 / 12) = 1 := by norm_num
-  rw [this]; linarith
 
 theorem vEx_chain : Nonempty (RowChain likR vEx) := by
   have hpos : ∀ r ∈ cRows, 0 < r.2 := by simp [cRows]
